@@ -1,6 +1,7 @@
 package main
 
 import (
+	"os"
 	"fmt"
 	"go/ast"
 	"go/token"
@@ -149,6 +150,9 @@ func requireAt(c *Ctx, rule, construct string, g *Fn, n ast.Node, what string, r
 		}
 	}
 	c.Ob(rule, construct, n.Pos(), all, fmt.Sprintf("%s; not established on every path: %v", what, missing))
+	if !all && os.Getenv("VERIF_DEBUG_FACTS") != "" {
+		fmt.Fprintf(os.Stderr, "facts at %s (%s):\n%s\n", c.pos(n.Pos()), construct, fs.String())
+	}
 	return all
 }
 
@@ -944,16 +948,24 @@ func runC29(c *Ctx) {
 			}
 			requireAt(c, "checkacme", "checkAcme#found-only-for-owner", ca, r, "an existing binding counts only when its token, id and address equal the caller's",
 				eq("token equal", func(g *Fn, fa *Fact) bool {
-					return fa.Kind == FTrue && g.IsCall(fa.Call, "bytes.Equal") && strings.Contains(types_ExprString(fa.Call), "GetClientToken") && strings.Contains(g.Prov(fa.Call.Args[1]), "param#3")
+					if fa.Kind != FTrue || !g.IsCall(fa.Call, "bytes.Equal") || len(fa.Call.Args) != 2 {
+						return false
+					}
+					a, b := g.Prov(fa.Call.Args[0]), g.Prov(fa.Call.Args[1])
+					stored := func(p string) bool { return strings.HasSuffix(p, ".GetClientToken().GetToken()") }
+					asked := func(p string) bool { return p == "param#3.GetToken()" }
+					return stored(a) && asked(b) || stored(b) && asked(a)
 				}),
-				eq("id equal", func(g *Fn, fa *Fact) bool {
-					be, ok := fa.Expr.(*ast.BinaryExpr)
-					return fa.Kind == FCmp && ok && !fa.Truth && be.Op == token.NEQ && strings.HasSuffix(g.Prov(be.X), ".GetClientIdentity().GetId()") && g.Prov(be.Y) == "param#4.GetId()"
-				}),
-				eq("address equal", func(g *Fn, fa *Fact) bool {
-					be, ok := fa.Expr.(*ast.BinaryExpr)
-					return fa.Kind == FCmp && ok && !fa.Truth && be.Op == token.NEQ && strings.HasSuffix(g.Prov(be.X), ".GetClientIdentity().GetAddress()") && g.Prov(be.Y) == "param#4.GetAddress()"
-				}),
+				factReq{"id equal", func(g *Fn, fs *FactSet) bool {
+					return fs.Equal(func(x, y ast.Expr) bool {
+						return strings.HasSuffix(g.Prov(x), ".GetClientIdentity().GetId()") && g.Prov(y) == "param#4.GetId()"
+					})
+				}},
+				factReq{"address equal", func(g *Fn, fs *FactSet) bool {
+					return fs.Equal(func(x, y ast.Expr) bool {
+						return strings.HasSuffix(g.Prov(x), ".GetClientIdentity().GetAddress()") && g.Prov(y) == "param#4.GetAddress()"
+					})
+				}},
 				reqCallOK("spec/tun.FindCustomHostname"))
 		}
 	}
@@ -1054,17 +1066,40 @@ func runC30(c *Ctx) {
 	for _, s := range signs {
 		requireAt(c, "sign-gate", "Sign#signer.Sign", sg, s, "the private key signs only after getCertificate succeeded and the digest has the length of the selected hash",
 			reqCallOK("tun/server.Server.getCertificate"),
-			factReq{"len(digest) == size of the selected hash", cmpFalse(func(g *Fn, be *ast.BinaryExpr) bool {
-				s := types_ExprString(be)
-				if be.Op != token.NEQ || !strings.Contains(s, "GetDigest") {
-					return false
+			factReq{"len(digest) == size of the selected hash", func(g *Fn, fs *FactSet) bool {
+				opt := g.varOf(s.Args[2])
+				// sizeOfSelected: e is <selected>.Size() or <selected>.HashFunc().Size(), where
+				// <selected> is the very variable handed to signer.Sign
+				sizeOfSelected := func(e ast.Expr) bool {
+					call, ok := ast.Unparen(e).(*ast.CallExpr)
+					if !ok || g.CallKey(call) != "crypto.Hash.Size" {
+						return tableEntry != nil && fromTable(e)
+					}
+					r := ast.Unparen(call.Fun.(*ast.SelectorExpr).X)
+					if hc, ok := r.(*ast.CallExpr); ok && strings.HasSuffix(g.CallKey(hc), ".HashFunc") {
+						if se, ok := ast.Unparen(hc.Fun).(*ast.SelectorExpr); ok {
+							r = ast.Unparen(se.X)
+						}
+					}
+					return opt != nil && g.varOf(r) == opt
 				}
-				if strings.Contains(s, "HashFunc.Size") || strings.Contains(s, ".Size()") {
-					return true
+				digestLen := func(e ast.Expr) bool {
+					call, ok := ast.Unparen(e).(*ast.CallExpr)
+					if !ok || len(call.Args) != 1 {
+						return false
+					}
+					id, ok := ast.Unparen(call.Fun).(*ast.Ident)
+					if !ok {
+						return false
+					}
+					if b, ok := g.Info.Uses[id].(*types.Builtin); !ok || b.Name() != "len" {
+						return false
+					}
+					pv := g.Prov(call.Args[0])
+					return pv == "param#1.GetDigest()" || pv == "param#1.Digest"
 				}
-				// table form: the size field of the entry looked up for the request's algorithm
-				return tableEntry != nil && (fromTable(be.Y) || fromTable(be.X))
-			})})
+				return fs.Equal(func(x, y ast.Expr) bool { return digestLen(x) && sizeOfSelected(y) })
+			}})
 		okOpts := sg.varOf(s.Args[2]) != nil
 		if tableEntry != nil {
 			okOpts = fromTable(s.Args[2])
@@ -1076,23 +1111,86 @@ func runC30(c *Ctx) {
 	// algorithm table
 	wantAlgo := map[string]string{"KeylessSignRequest_SHA256": "SHA256", "KeylessSignRequest_SHA384": "SHA384", "KeylessSignRequest_SHA512": "SHA512"}
 	seenAlgo := 0
-	isAlgo := func(e ast.Expr) bool { return sg.Prov(e) == "param#1.GetAlgo()" }
-	ast.Inspect(sg.Body, func(n ast.Node) bool {
-		as, ok := n.(*ast.AssignStmt)
-		if !ok || len(as.Lhs) != 1 || len(as.Rhs) != 1 || sg.varOf(as.Lhs[0]) == nil || !strings.Contains(typeStr(sg, as.Lhs[0]), "crypto.SignerOpts") {
-			return true
-		}
-		pos, _ := sg.FactsAt(as).EqConsts(sg, isAlgo)
+	isAlgo := func(e ast.Expr) bool { return sg.enclosing(e).Prov(e) == "param#1.GetAlgo()" }
+	isHashType := func(e ast.Expr) bool {
+		t := typeStr(sg, e)
+		return strings.HasSuffix(t, "crypto.SignerOpts") || strings.HasSuffix(t, "crypto.Hash")
+	}
+	// selection sites: where the hash option gets its value. Either an assignment to a local of
+	// type crypto.SignerOpts / crypto.Hash, or a return of an immediately invoked literal whose
+	// result is bound to such a local (what an extracted helper looks like once inlined). A
+	// return that also yields a constant false "supported" flag which signer.Sign is known to
+	// have seen true cannot be the one that selected the option.
+	selection := func(at ast.Node, rhs ast.Expr) {
+		g := sg.enclosing(at)
+		pos, _ := sg.FactsAt(at).EqConsts(g, isAlgo)
 		name := ""
 		if len(pos) == 1 {
 			name = pos[0]
 		}
-		got := constName(sg, as.Rhs[0])
+		got := constName(g, rhs)
 		if want, ok := wantAlgo[name]; ok {
 			seenAlgo++
-			c.Ob("sign-gate", "Sign#algo:"+name, as.Pos(), got == want, "request algorithm "+name+" selects crypto."+want+"; found crypto."+got)
+			c.Ob("sign-gate", "Sign#algo:"+name, at.Pos(), got == want, "request algorithm "+name+" selects crypto."+want+"; found crypto."+got)
 		} else {
-			c.Ob("sign-gate", "Sign#algo:"+name+"->"+got, as.Pos(), false, fmt.Sprintf("the hash option is assigned outside the three enumerated algorithm cases (algorithms known here: %v)", pos))
+			c.Ob("sign-gate", "Sign#algo:"+name+"->"+got, at.Pos(), false, fmt.Sprintf("the hash option is assigned outside the three enumerated algorithm cases (algorithms known here: %v)", pos))
+		}
+	}
+	ast.Inspect(sg.Body, func(n ast.Node) bool {
+		as, ok := n.(*ast.AssignStmt)
+		if !ok {
+			return true
+		}
+		if len(as.Lhs) == len(as.Rhs) {
+			for i, l := range as.Lhs {
+				if sg.enclosing(as).varOf(l) == nil || !isHashType(l) {
+					continue
+				}
+				if _, isCall := ast.Unparen(as.Rhs[i]).(*ast.CallExpr); isCall {
+					continue
+				}
+				selection(as, as.Rhs[i])
+			}
+			return true
+		}
+		if len(as.Rhs) != 1 {
+			return true
+		}
+		call, ok := ast.Unparen(as.Rhs[0]).(*ast.CallExpr)
+		if !ok {
+			return true
+		}
+		lit, ok := ast.Unparen(call.Fun).(*ast.FuncLit)
+		if !ok {
+			return true
+		}
+		for i, l := range as.Lhs {
+			if !isHashType(l) {
+				continue
+			}
+			lg := sg.Closure(lit)
+			for _, r := range lg.Returns() {
+				if i >= len(r.Results) {
+					c.Ob("sign-gate", "Sign#algo:bare-return", r.Pos(), false, "the literal selecting the hash returns through named results; not summarised")
+					continue
+				}
+				refused := false
+				for j, other := range r.Results {
+					if v, ok := lg.ConstVal(other); ok && v == "false" && j != i {
+						seen := true
+						for _, s2 := range signs {
+							if !sg.FactsAt(s2).Has(func(fa *Fact) bool { return fa.Kind == FTrue && fa.Call == call && fa.Idx == j }) {
+								seen = false
+							}
+						}
+						refused = refused || seen
+					}
+				}
+				if refused {
+					continue
+				}
+				selection(r, r.Results[i])
+			}
 		}
 		return true
 	})
